@@ -66,6 +66,8 @@ type Scenario struct {
 	Honest    bool       `json:"honest"` // an honest full source stays reachable: completion is expected (C10)
 	Seed      int64      `json:"seed"`
 	Endgame   int        `json:"endgame"`
+	// RequestsOut > 0: Config.DefaultRequestsOut = MaxRequestsOut = RequestsOut (length of the request pipeline per peer)
+	RequestsOut int `json:"requestsOut"`
 	// BadHashPiece >= 0: the recorded SHA-1 of that piece is altered at byte BadHashPos; honest data must be refused for it
 	BadHashPiece int `json:"badHashPiece"`
 	BadHashPos   int `json:"badHashPos"`
@@ -235,8 +237,35 @@ func policy(ps PeerSpec, tor *vh.Torrent, sentBad *atomic.Int64, magnet bool) *v
 			}
 		}
 	}
+	if ps.Policy == "afreject" {
+		pol.NoFast = false
+		pol.NoUnchoke = true
+		for i := 0; i < tor.NumPieces && i < 2+ps.K%3; i++ {
+			pol.AllowedFast = append(pol.AllowedFast, (i*5+ps.K)%tor.NumPieces)
+		}
+	}
+	if ps.Policy == "afreject" {
+		// a (redundant) have after the allowed-fast messages makes the client look at the peer again while it is choked; whatever
+		// happens the peer unchokes after half a second at the latest: it stays an honest, reachable source
+		var once sync.Once
+		pol.OnMsg = func(s *vh.Seeder, m vh.Msg) bool {
+			if m.ID == vh.MsgInterested {
+				once.Do(func() {
+					s.Send(vh.Msg{ID: vh.MsgHave, Index: uint32(pol.AllowedFast[0])})
+					go func() {
+						time.Sleep(500 * time.Millisecond)
+						if s.Choking.CompareAndSwap(true, false) {
+							s.Send(vh.Msg{ID: vh.MsgUnchoke})
+						}
+					}()
+				})
+			}
+			return false
+		}
+	}
 	var mu sync.Mutex
 	served := 0
+	cycChoking := false
 	var held []vh.Msg
 	corruptMsg := func(s *vh.Seeder, req vh.Msg) vh.Msg {
 		m := s.HonestPiece(req)
@@ -326,6 +355,36 @@ func policy(ps PeerSpec, tor *vh.Torrent, sentBad *atomic.Int64, magnet bool) *v
 				s.Send(vh.Msg{ID: vh.MsgChoke})
 				go func() {
 					time.Sleep(60 * time.Millisecond)
+					s.Send(vh.Msg{ID: vh.MsgUnchoke})
+				}()
+			}
+			return nil, false
+		case "afreject": // fast extension: allowed-fast pieces offered while choking, the first K requests are rejected, then unchoke
+			if s.Choking.Load() {
+				if served >= max(ps.K, 1) {
+					s.Send(vh.Msg{ID: vh.MsgReject, Index: req.Index, Begin: req.Begin, Length: req.Length})
+					if s.Choking.CompareAndSwap(true, false) {
+						s.Send(vh.Msg{ID: vh.MsgUnchoke})
+					}
+					return nil, true
+				}
+				return []vh.Msg{{ID: vh.MsgReject, Index: req.Index, Begin: req.Begin, Length: req.Length}}, true
+			}
+			return nil, false
+		case "chokecycle": // as chokedeliver, again and again: every K-th request is answered only after a choke, then unchoke
+			// the request that made it choke is still answered (it was on its way out), the ones arriving while it chokes are
+			// discarded, as a choking peer may do
+			if cycChoking {
+				return nil, true
+			}
+			if served%max(ps.K, 1) == 0 {
+				cycChoking = true
+				s.Send(vh.Msg{ID: vh.MsgChoke})
+				go func() {
+					time.Sleep(25 * time.Millisecond)
+					mu.Lock()
+					cycChoking = false
+					mu.Unlock()
 					s.Send(vh.Msg{ID: vh.MsgUnchoke})
 				}()
 			}
@@ -494,6 +553,10 @@ func run(sc Scenario, dir string) {
 	r.prov.Quiet = true
 	cfg.CustomStorage = r.prov
 	cfg.RequestTimeout = 1200 * time.Millisecond
+	if sc.RequestsOut > 0 {
+		cfg.DefaultRequestsOut = sc.RequestsOut
+		cfg.MaxRequestsOut = sc.RequestsOut
+	}
 	// The body-read timer of a web-seed download keeps running while the downloader waits to hand over a piece (result channel
 	// suspended during a piece write); on a loaded machine a write into the recording storage can take seconds, the source would be
 	// disabled for a minute and the bounded-time completion judgement would blame the client for the harness's slowness.
